@@ -960,3 +960,160 @@ func ruleZERODIV(w *World, r *Report) {
 	}
 	r.floor("ZERODIV", "returns of Div and Inverse", n, 3)
 }
+
+// ---------------------------------------------------------------------------
+// FIELDCROSS: like-named fields are copied to like-named fields
+
+const ruleFIELDCROSSText = "no crossed fields: in par1 and par2, when a field f of a struct value is initialised from field g of another module struct and the destination struct has a field named g of the same type (g != f), the value goes to the wrong field - the signature of a positional composite literal that no longer matches the order of the struct's declaration (hash and sixteenKHash are both [16]byte, so the compiler cannot object)"
+
+func ruleFIELDCROSS(w *World, r *Report) {
+	r.rule("FIELDCROSS", ruleFIELDCROSSText)
+	n, bad := 0, 0
+	for _, fn := range w.funcsInPkgs("par1", "par2") {
+		k := 0
+		for _, b := range fn.Blocks {
+			for _, in := range b.Instrs {
+				st, ok := in.(*ssa.Store)
+				if !ok {
+					continue
+				}
+				fa, ok := st.Addr.(*ssa.FieldAddr)
+				if !ok {
+					continue
+				}
+				dstT := fa.X.Type()
+				if p, ok := dstT.Underlying().(*types.Pointer); ok {
+					dstT = p.Elem()
+				}
+				dst, ok := dstT.Underlying().(*types.Struct)
+				if !ok || !isModTypeName(namedTypeName(dstT)) {
+					continue
+				}
+				f := fieldName(fa.X.Type(), fa.Field)
+				// source: a field of another struct
+				var g string
+				var gT types.Type
+				switch x := stripConv(st.Val).(type) {
+				case *ssa.UnOp:
+					if sfa, ok := x.X.(*ssa.FieldAddr); ok && x.Op == token.MUL {
+						g, gT = fieldName(sfa.X.Type(), sfa.Field), x.Type()
+					}
+				case *ssa.Field:
+					g, gT = fieldName(x.X.Type(), x.Field), x.Type()
+				}
+				if g == "" {
+					continue
+				}
+				n++
+				if g == f {
+					continue
+				}
+				for i := 0; i < dst.NumFields(); i++ {
+					if dst.Field(i).Name() == g && types.Identical(dst.Field(i).Type(), gT) {
+						bad++
+						r.bad("FIELDCROSS", fmt.Sprintf("%s:%s<-%s#%d", shortName(fn), f, g, k), w.ipos(st), fmt.Sprintf("field %s of %s is initialised from a field named %s, although %s has its own field %s of the same type: the two are crossed (a positional literal that no longer matches the declaration order?)", f, namedTypeName(dstT), g, namedTypeName(dstT), g))
+						k++
+					}
+				}
+			}
+		}
+	}
+	if bad == 0 {
+		r.ok("FIELDCROSS", "all", "", fmt.Sprintf("%d field-to-field initialisations, none crossed", n))
+	}
+	r.floor("FIELDCROSS", "field-to-field initialisations", n, 5)
+}
+
+// ---------------------------------------------------------------------------
+// OPTKEEP: the requested number of recovery blocks / volumes is what gets written
+
+const ruleOPTKEEPText = "the caller's counts are kept: Encoder.volumeCount (par1) and Encoder.parityShardCount (par2) are stored only in the constructor, and with the constructor's parameter itself - not clamped to the number of files or slices (more recovery data than data is a legitimate request and the index records what was asked for)"
+
+func ruleOPTKEEP(w *World, r *Report) {
+	r.rule("OPTKEEP", ruleOPTKEEPText)
+	n := 0
+	for _, spec := range []struct{ pkg, field, ctor string }{{"par1", "volumeCount", "par1.newEncoder"}, {"par2", "parityShardCount", "par2.newEncoder"}} {
+		for _, fn := range w.funcsInPkgs(spec.pkg) {
+			k := 0
+			for _, b := range fn.Blocks {
+				for _, in := range b.Instrs {
+					st, ok := in.(*ssa.Store)
+					if !ok {
+						continue
+					}
+					fa, ok := st.Addr.(*ssa.FieldAddr)
+					if !ok || fieldName(fa.X.Type(), fa.Field) != spec.field || namedTypeName(fa.X.Type()) != spec.pkg+".Encoder" {
+						continue
+					}
+					n++
+					key := fmt.Sprintf("%s:store(%s)#%d", shortName(fn), spec.field, k)
+					k++
+					_, isParam := stripConv(st.Val).(*ssa.Parameter)
+					switch {
+					case shortName(fn) != spec.ctor:
+						r.bad("OPTKEEP", key, w.ipos(st), fmt.Sprintf("Encoder.%s is changed after construction: fewer recovery blocks/volumes are written than were asked for", spec.field))
+					case !isParam:
+						r.bad("OPTKEEP", key, w.ipos(st), fmt.Sprintf("Encoder.%s is not set to the constructor's parameter as given (%s): the requested count is altered", spec.field, st.Val))
+					default:
+						r.ok("OPTKEEP", key, w.ipos(st), "set once, to the parameter as given")
+					}
+				}
+			}
+		}
+	}
+	r.floor("OPTKEEP", "stores of the requested counts", n, 2)
+}
+
+// ---------------------------------------------------------------------------
+// GENORDER: the PAR2 constants stay in exponent order
+
+const ruleGENORDERText = "the table of PAR2 constants keeps its order: in rsec16 the package-level generators slice is only appended to, indexed, measured and loaded - it is never handed to a function (sort.Slice would renumber the constants: slice i must get 2^(n_i) with n_i the i-th exponent coprime to 65535, not the i-th smallest value)"
+
+func ruleGENORDER(w *World, r *Report) {
+	r.rule("GENORDER", ruleGENORDERText)
+	n := 0
+	bad := ""
+	for _, fn := range w.funcsInPkgs("rsec16") {
+		for _, f := range withAnon(fn) {
+			for _, b := range f.Blocks {
+				for _, in := range b.Instrs {
+					ld, ok := in.(*ssa.UnOp)
+					if !ok || ld.Op != token.MUL {
+						continue
+					}
+					g, ok := ld.X.(*ssa.Global)
+					if !ok || g.Name() != "generators" {
+						continue
+					}
+					n++
+					for _, ref := range referrersOf(ld) {
+						switch x := ref.(type) {
+						case *ssa.IndexAddr, *ssa.Index, *ssa.Slice, *ssa.DebugRef, *ssa.Store, *ssa.Phi, *ssa.Lookup:
+						case *ssa.Call:
+							if isBuiltinCall(x, "len") != nil || isBuiltinCall(x, "cap") != nil || isBuiltinCall(x, "append") != nil {
+								continue
+							}
+							bad = fmt.Sprintf("the table is passed to %s at %s", calleeName(&x.Call), w.ipos(x))
+						case *ssa.MakeInterface:
+							for _, r2 := range referrersOf(x) {
+								if c, ok := r2.(*ssa.Call); ok {
+									bad = fmt.Sprintf("the table is passed to %s at %s", calleeName(&c.Call), w.ipos(c))
+								}
+							}
+						case *ssa.MakeClosure:
+							bad = "the table is captured by a function literal at " + w.ipos(x)
+						default:
+							_ = x
+						}
+					}
+				}
+			}
+		}
+	}
+	if bad != "" {
+		r.bad("GENORDER", "rsec16.generators", "", bad+": its elements can be reordered, which renumbers the PAR2 constants")
+	} else {
+		r.ok("GENORDER", "rsec16.generators", "", fmt.Sprintf("%d uses: append, index, len only", n))
+	}
+	r.floor("GENORDER", "uses of the generators table", n, 2)
+}
